@@ -1,7 +1,7 @@
 #!/bin/bash
 # usage: confirm_seed.sh <ID> <mN>  — independently confirms a seeded change in its scratch worktree:
 # tests pass with the change, demo fails with it and passes without it. Writes RESULT into OUT/<mN>/confirm.txt
-ID=$1; M=$2; W=/var/tmp/seed/$ID; O=$W/OUT/$M
+ID=$1; M=$2; W=${SEEDROOT:-/var/tmp/seed3}/$ID; O=$W/OUT/$M
 cd $W || exit 2
 export CARGO_HOME=/root/.cargo RUSTUP_HOME=/root/.rustup HOME=$W/scratch_home XDG_CACHE_HOME=$W/scratch_home/.cache; mkdir -p $XDG_CACHE_HOME
 git checkout -q -- . ; git status --porcelain --untracked-files=no
